@@ -47,6 +47,9 @@ type scenario struct {
 	rounds    int // stream-insert
 	withCtxDL bool
 	readTO    time.Duration
+	// prior: this many earlier queries on the same client were answered by a server exception
+	// (which leaves the client open), so per-query state of the client has been used before.
+	prior int
 }
 
 var scenarioNames = []string{"select", "insert", "stream-insert"}
@@ -60,28 +63,30 @@ type gatedRun struct {
 	cols   []inputCol
 	q      ch.Query
 	// bookkeeping
-	trace     []string
-	ranAfter  map[string]bool
-	cbCalls   int
-	failCbAt  int // callback index that fails (-1 none)
-	cbErr     error
-	doneCh    chan struct{}
-	doErr     error
-	start     time.Time
-	returned  time.Time
-	cancel    context.CancelFunc
-	canceled  bool
-	cancelAt  time.Time
-	packets   int
-	inputDone bool
-	started   bool
+	trace    []string
+	ranAfter map[string]bool
+	cbCalls  int
+	failCbAt int // callback index that fails (-1 none)
+	cbErr    error
+	doneCh   chan struct{}
+	doErr    error
+	start    time.Time
+	returned time.Time
+	cancel   context.CancelFunc
+	canceled bool
+	cancelAt time.Time
+	// failAfterCancel: once the context is cancelled, user callbacks return an error of their own
+	failAfterCancel bool
+	packets         int
+	inputDone       bool
+	started         bool
 }
 
 func (g *gatedRun) cb(name string) error {
 	g.sched.Gate("cb:" + name)
 	i := g.cbCalls
 	g.cbCalls++
-	if i == g.failCbAt {
+	if i == g.failCbAt || (g.failAfterCancel && g.canceled) {
 		return g.cbErr
 	}
 	return nil
@@ -101,6 +106,13 @@ func newGatedRun(rt *rapid.T, sc scenario, serverItems func(g *gatedRun) []simne
 	}
 	g.client = client
 	g.e.client = client
+	for i := 0; i < sc.prior; i++ {
+		g.e.srv.Steps = append(g.e.srv.Steps, itemStep(Item{Kind: "exception", Exc: []ref.Exception{{Code: 60, Name: "DB::Exception", Message: "DB::Exception: Table default.prior doesn't exist"}}}, simnet.AfterQuery(i+1), 0, nil))
+		err := doBounded(rt, g.e, client, context.Background(), ch.Query{Body: "SELECT * FROM prior"}, time.Minute, "preliminary query answered by an exception")
+		if !ch.IsErr(err, 60) || client.IsClosed() {
+			rt.Fatalf("harness: preliminary query %d: err=%v closed=%v", i, err, client.IsClosed())
+		}
+	}
 	lg := zap.New(gateCore{sched: g.sched})
 	q := ch.Query{Body: "Q", QueryID: "gated", Logger: lg}
 	kinds := drawInput(rt, "col", 2, 1)
@@ -165,7 +177,7 @@ func saneSteps(g *gatedRun) []simnet.Step {
 	switch g.sc.name {
 	case "select":
 		hdr := headerItem(g.cols)
-		steps = append(steps, itemStep(hdr, simnet.AfterQuery(1), m, nil))
+		steps = append(steps, itemStep(hdr, simnet.AfterQuery(1+g.sc.prior), m, nil))
 		tele(nil)
 		steps = append(steps, itemStep(Item{Kind: "data", Block: modelBlock(g.cols)}, nil, m, nil))
 		if g.sc.telemetry {
@@ -174,7 +186,7 @@ func saneSteps(g *gatedRun) []simnet.Step {
 		steps = append(steps, itemStep(Item{Kind: "data", Block: &ref.Block{}}, nil, m, nil))
 		steps = append(steps, itemStep(Item{Kind: "eos"}, nil, 0, nil))
 	case "insert", "stream-insert":
-		steps = append(steps, itemStep(Item{Kind: "tablecolumns", TC: ref.TableColumns{Second: "x"}}, simnet.AfterQuery(1), 0, nil))
+		steps = append(steps, itemStep(Item{Kind: "tablecolumns", TC: ref.TableColumns{Second: "x"}}, simnet.AfterQuery(1+g.sc.prior), 0, nil))
 		steps = append(steps, itemStep(headerItem(g.cols), nil, m, nil))
 		tele(simnet.AfterDataBlocks(1))
 		steps = append(steps, itemStep(Item{Kind: "eos"}, simnet.AfterInputEnd, 0, nil))
